@@ -247,6 +247,51 @@ def rule_sortedemit(ctx, prop: str) -> RuleResult:
             res.sample(f"{fn}: iterates `{ast.unparse(it)}`")
             if not ok:
                 res.add(Finding("SORTEDEMIT", COMP, lp.lineno, fn, f"for-over:{param}", f"`{param}` (built from a set) is emitted in iteration order instead of sorted(..., key=<name>): output order depends on hashing"))
+                continue
+            # ties: two distinct elements with equal keys keep the set's iteration order.  Either
+            # equal keys are rejected in the loop (`if name in seen: raise`), or the key contains
+            # the emitted text itself, so that a tie can only be between identical outputs.
+            rejects_dup = any(isinstance(x, ast.If) and isinstance(x.test, ast.Compare) and isinstance(x.test.ops[0], ast.In) and any(isinstance(r, ast.Raise) for r in ast.walk(x)) for b in lp.body for x in ast.walk(b))
+            key = next(kw.value for kw in it.keywords if kw.arg == "key")
+            key_ok = False
+            if isinstance(key, ast.Lambda) and len(key.args.args) == 1:
+                lam = key.args.args[0].arg
+                # loop target(s) expressed through the lambda parameter
+                sub = {}
+                if isinstance(lp.target, ast.Name):
+                    sub[lp.target.id] = lam
+                elif isinstance(lp.target, ast.Tuple):
+                    for i_, e_ in enumerate(lp.target.elts):
+                        if isinstance(e_, ast.Name):
+                            sub[e_.id] = f"{lam}[{i_}]"
+                emitted = []
+                for b in lp.body:
+                    for x in ast.walk(b):
+                        if isinstance(x, ast.Call) and isinstance(x.func, ast.Attribute) and x.func.attr == "append" and x.args:
+                            emitted.append(x.args[0])
+                        if isinstance(x, ast.NamedExpr):
+                            emitted.append(x.value)
+                emitted = [e_ for e_ in emitted if isinstance(e_, ast.Call)]
+
+                class _S(ast.NodeTransformer):
+                    def visit_Name(self, node):
+                        if node.id in sub:
+                            return ast.parse(sub[node.id], mode="eval").body
+                        return node
+
+                import copy
+
+                ktxt = ast.unparse(key.body)
+                key_ok = bool(emitted) and all(ast.unparse(_S().visit(copy.deepcopy(e_))) in ktxt for e_ in emitted)
+            res.instances += 1
+            res.nontrivial += 1
+            ok2 = rejects_dup or key_ok
+            res.ob(ok2)
+            res.sample(f"{fn}: equal sort keys cannot reorder the output (duplicates rejected: {rejects_dup}; key contains the emitted text: {key_ok})")
+            if not ok2:
+                res.add(Finding("SORTEDEMIT", COMP, lp.lineno, fn, f"ties:{param}",
+                                f"`{ast.unparse(it)[:70]}`: two distinct elements with the same key (two memory classes produced by one class factory share a name) keep the "
+                                f"iteration order of the set, so the order of their emitted blocks changes from run to run"))
     cts = m.func("compile_to_strings")
     res.analysed.append(f"{COMP}:compile_to_strings")
     # (b) proc list sorted by name
